@@ -84,7 +84,14 @@ func (fc *FnCtx) inferFrame(fn *ssa.Function) *inferredFrame {
 	// of slices it is given, call back function values it is given, and call the methods of
 	// interface values it is given (resolved to the module's implementations).
 	foreign := func(c *ssa.CallCommon) {
-		for _, a := range c.Args {
+		args := append([]ssa.Value(nil), c.Args...)
+		for k := 0; k < len(args); k++ {
+			a := args[k]
+			// a pointer (or slice) boxed into an interface argument is as exposed as one passed
+			// directly: foreign code can write through it by reflection (binary.Read, proto.Unmarshal)
+			if mi, ok := a.(*ssa.MakeInterface); ok {
+				args = append(args, mi.X)
+			}
 			switch t := a.Type().Underlying().(type) {
 			case *types.Slice:
 				addLeaves("elem|"+typeName(t.Elem()), true, t.Elem())
@@ -307,7 +314,11 @@ func (fc *FnCtx) inferFrame(fn *ssa.Function) *inferredFrame {
 						}
 						// call through a function value: bound closures created in this function are
 						// covered by MakeClosure below; anything else is unknown
-						if _, isParam := c.Value.(*ssa.Parameter); isParam && depth > 0 {
+						isParam := false
+						if _, ok := c.Value.(*ssa.Parameter); ok || derivesFromParam(c.Value, 0) {
+							isParam = true
+						}
+						if isParam && depth > 0 {
 							// covered where this function is called: the caller's function-valued
 							// arguments are visited there
 							continue
@@ -547,4 +558,81 @@ func (e *Engine) implementations(recv types.Type, m *types.Func) []*ssa.Function
 	e.implCache[key] = out
 	e.mu.Unlock()
 	return out
+}
+
+// derivesFromParam: the function value is a function-typed parameter of this function or of an
+// enclosing one, read back from the cell it was spilled to (captured by a closure).
+func derivesFromParam(v ssa.Value, depth int) bool {
+	if depth > 6 {
+		return false
+	}
+	switch x := v.(type) {
+	case *ssa.Parameter:
+		_, isSig := x.Type().Underlying().(*types.Signature)
+		return isSig
+	case *ssa.UnOp:
+		if x.Op != token.MUL {
+			return false
+		}
+		switch c := x.X.(type) {
+		case *ssa.Alloc:
+			return cellHoldsOnlyParam(c, depth)
+		case *ssa.FreeVar:
+			fn := c.Parent()
+			if fn == nil || fn.Parent() == nil {
+				return false
+			}
+			idx := -1
+			for i, fv := range fn.FreeVars {
+				if fv == c {
+					idx = i
+				}
+			}
+			if idx < 0 {
+				return false
+			}
+			found := false
+			for _, b := range fn.Parent().Blocks {
+				for _, ins := range b.Instrs {
+					mc, ok := ins.(*ssa.MakeClosure)
+					if !ok || mc.Fn != fn || idx >= len(mc.Bindings) {
+						continue
+					}
+					found = true
+					switch bv := mc.Bindings[idx].(type) {
+					case *ssa.Alloc:
+						if !cellHoldsOnlyParam(bv, depth) {
+							return false
+						}
+					case *ssa.FreeVar:
+						// captured again from a further enclosing function
+						if !derivesFromParam(&ssa.UnOp{Op: token.MUL, X: bv}, depth+1) {
+							return false
+						}
+					default:
+						return false
+					}
+				}
+			}
+			return found
+		}
+	case *ssa.FreeVar:
+		return false
+	}
+	return false
+}
+
+func cellHoldsOnlyParam(a *ssa.Alloc, depth int) bool {
+	found := false
+	for _, b := range a.Parent().Blocks {
+		for _, ins := range b.Instrs {
+			if st, ok := ins.(*ssa.Store); ok && st.Addr == a {
+				if !derivesFromParam(st.Val, depth+1) {
+					return false
+				}
+				found = true
+			}
+		}
+	}
+	return found
 }
